@@ -8,8 +8,12 @@
    Part B -- protocol: builder/mod.rs create / open / open_or_create and service/mod.rs
      ServiceState::drop as step lists over a small file-system state; one step = one libc call as
      seen by harness/libgate (close / mmap / munmap / opendir / closedir are process local and not
-     steps) or one atomic operation on the node registry (dynamic_config/mod.rs register_node_id /
-     deregister_node_id with ReleaseMode::LockIfLastIndex).  Threads of model/Conc.v = nodes (one
+     steps) or one step of the node registry protocol (dynamic_config/mod.rs register_node_id /
+     deregister_node_id with ReleaseMode::LockIfLastIndex over mpmc/robust_unique_index_set.rs), split where
+     interleavings matter: acquire = [lock check + cell CAS] ; [generation increment WITH re-check of the LOCK
+     indicator]; release = [cell CAS + generation increment] ; [snapshot: generation + number of populated cells] ;
+     [CAS generation -> LOCK, valid only for an unchanged generation].  The scan over the cells is one step
+     (C09 covers the index set itself).  Threads of model/Conc.v = nodes (one
      node per process).  Time is an abstract tick budget T: every sleep of a waiting loop is one
      tick.
 
@@ -227,7 +231,8 @@ Record inst := mkInst {
   i_st : sphase;
   i_dy : dphase; i_dy_linked : bool;
   i_res : bool;                       (* blackboard resources exist *)
-  i_locked : bool; i_members : list nat   (* node registry *)
+  (* node registry: generation counter (i_locked = it holds the LOCK indicator) and the owners of the populated cells *)
+  i_locked : bool; i_gen : nat; i_members : list nat
 }.
 
 Inductive side := SOpen | SCreate | SNone.
@@ -242,7 +247,8 @@ Record gst := mkG {
   cur : option nat;                   (* instance whose static config file is linked under the name *)
   tags : list nat;                    (* nodes that have a service tag file *)
   (* ghost, never read by a step *)
-  glog : list (nat * opkind * result) (* (thread, inner call that produced it, result) of every returned call, oldest first *)
+  glog : list (nat * opkind * result); (* (thread, inner call that produced it, result) of every returned call, oldest first *)
+  gmulti : bool                       (* some release(LockIfLastIndex) reported Locked although ANOTHER release had locked the set *)
 }.
 
 Inductive op := OCreate (r : req) | OOpen (r : req) | OOoc (r : req) | ODrop (k : nat).
@@ -258,7 +264,7 @@ Inductive pc :=
 | OTagStat (j : nat) | OTagOpen (j : nat) | OTagChmod1 (j : nat) | OTagWrite (j : nat) | OTagChmod2 (j : nat)
 | ORes (j : nat) (own : bool)
 | ODyOpen (j : nat) (own : bool) (n : nat) | ODyFstatSize (j : nat) (own : bool) (n : nat)
-| ODyFstatPerm (j : nat) (own : bool) (n : nat) | OReg (j : nat) (own : bool)
+| ODyFstatPerm (j : nat) (own : bool) (n : nat) | OReg (j : nat) (own : bool) | RIncr (j : nat) (own : bool)
 (* create *)
 | CTagStat | CTagOpen | CTagChmod1 | CTagWrite | CTagChmod2
 | CDirStat (own : bool) | CStOpen (own : bool)
@@ -270,7 +276,7 @@ Inductive pc :=
 (* failure clean-up *)
 | PRmTag (c : cont)
 (* drop *)
-| DRmTag (h : nat) | DDereg (h : nat) | DDyChmod (h : nat) | DDyUnlink (h : nat) | DResRemove (h : nat) | DStRemove (h : nat).
+| DRmTag (h : nat) | DDereg (h : nat) | DSnap (h : nat) | DCas (h : nat) (g0 : nat) | DDyChmod (h : nat) | DDyUnlink (h : nat) | DResRemove (h : nat) | DStRemove (h : nat).
 
 Record oocst := mkOoc { o_flux : nat; o_errs : list (side * err); o_used : nat }.
 
@@ -283,6 +289,8 @@ Record lst := mkL {
   used : nat;                         (* sleeps of the inner open call in progress *)
   handles : list (nat * scfg);         (* live port factories: (instance, static_config()) *)
   nreg : nat;                         (* node.registered_services() reference count of this service *)
+  regi : option nat;                  (* ... and the instance whose registry holds the node (Some iff nreg > 0) *)
+  leaks : list nat;                   (* ghost: instances in which this node left a populated cell behind *)
   rets : list result                  (* ghost *)
 }.
 
@@ -293,33 +301,39 @@ Inductive obj := BStatic | BDyn (i : nat) | BTag | BNodeDir | BSvcDir | BRes (i 
 Inductive cres := XOk | XEnoent | XEexist | XInit (* fstat: mode still the initial one *) | XFinal | XZero (* fstat: size 0 *).
 Inductive ev := ECall (c : call) (o : obj) (r : cres) | ERet (r : result) | ESleep.
 
-Record params := mkP { p_T : nat; p_defs : pattern -> list N }.
+(* p_recheck: acquire() re-checks the LOCK indicator when it increments the generation counter after populating its
+   cell (robust_unique_index_set.rs: `if self.increment_generation_counter(..) == GENERATION_COUNTER_LOCK_INDICATOR`).
+   The code does (true); the theorems that need it say so, and are refuted for false. *)
+Record params := mkP { p_T : nat; p_defs : pattern -> list N; p_recheck : bool }.
 
 Definition get_inst (g : gst) (i : nat) : option inst := nth_error (insts g) i.
-Definition set_inst (g : gst) (i : nat) (x : inst) : gst := mkG (upd (insts g) i x) (cur g) (tags g) (glog g).
-Definition set_cur (g : gst) (c : option nat) : gst := mkG (insts g) c (tags g) (glog g).
-Definition set_tags (g : gst) (ts : list nat) : gst := mkG (insts g) (cur g) ts (glog g).
-Definition add_log (g : gst) (t : nat) (k : opkind) (r : result) : gst := mkG (insts g) (cur g) (tags g) (glog g ++ [(t, k, r)]).
-Definition add_inst (g : gst) (x : inst) : gst := mkG (insts g ++ [x]) (cur g) (tags g) (glog g).
+Definition set_inst (g : gst) (i : nat) (x : inst) : gst := mkG (upd (insts g) i x) (cur g) (tags g) (glog g) (gmulti g).
+Definition set_cur (g : gst) (c : option nat) : gst := mkG (insts g) c (tags g) (glog g) (gmulti g).
+Definition set_tags (g : gst) (ts : list nat) : gst := mkG (insts g) (cur g) ts (glog g) (gmulti g).
+Definition add_log (g : gst) (t : nat) (k : opkind) (r : result) : gst := mkG (insts g) (cur g) (tags g) (glog g ++ [(t, k, r)]) (gmulti g).
+Definition add_inst (g : gst) (x : inst) : gst := mkG (insts g ++ [x]) (cur g) (tags g) (glog g) (gmulti g).
+Definition set_multi (g : gst) : gst := mkG (insts g) (cur g) (tags g) (glog g) true.
 
 Definition has_tag (g : gst) (t : nat) : bool := existsb (Nat.eqb t) (tags g).
 Definition rm_tag (g : gst) (t : nat) : gst := set_tags g (filter (fun x => negb (Nat.eqb x t)) (tags g)).
 
+Definition add_leak (l : lst) (i : nat) : lst :=
+  mkL (prog l) (at_pc l) (cur_req l) (cur_kind l) (in_ooc l) (used l) (handles l) (nreg l) (regi l) (i :: leaks l) (rets l).
 Definition set_pc (l : lst) (p : pc) : lst :=
-  mkL (prog l) p (cur_req l) (cur_kind l) (in_ooc l) (used l) (handles l) (nreg l) (rets l).
+  mkL (prog l) p (cur_req l) (cur_kind l) (in_ooc l) (used l) (handles l) (nreg l) (regi l) (leaks l) (rets l).
 
 Definition st_is_init (x : inst) : bool := match i_st x with SFinal => false | _ => true end.
 
 Definition push_err (es : list (side * err)) (e : side * err) : list (side * err) := firstn 5 (e :: es).
 
 (* the public operation returns r *)
-Definition op_done_k (k : opkind) (t : nat) (g : gst) (l : lst) (r : result) (hs : list (nat * scfg)) (nr : nat) (es : list ev)
+Definition op_done_k (k : opkind) (t : nat) (g : gst) (l : lst) (r : result) (hs : list (nat * scfg)) (nr : nat) (ri : option nat) (es : list ev)
   : option (gst * lst * list ev) :=
-  Some (add_log g t k r, mkL (prog l) Idle None KOpen None 0 hs nr (rets l ++ [r]), es ++ [ERet r]).
+  Some (add_log g t k r, mkL (prog l) Idle None KOpen None 0 hs nr ri (leaks l) (rets l ++ [r]), es ++ [ERet r]).
 
 Definition op_done (t : nat) (g : gst) (l : lst) (r : result) (hs : list (nat * scfg)) (nr : nat) (es : list ev)
   : option (gst * lst * list ev) :=
-  op_done_k (cur_kind l) t g l r hs nr es.
+  op_done_k (cur_kind l) t g l r hs nr (regi l) es.
 
 (* open_or_create's loop tail: elapsed >= creation_timeout ? fail : sleep and call open again *)
 Definition ooc_tail (P : params) (t : nat) (g : gst) (l : lst) (o : oocst) (es : list ev) : option (gst * lst * list ev) :=
@@ -329,7 +343,7 @@ Definition ooc_tail (P : params) (t : nat) (g : gst) (l : lst) (o : oocst) (es :
                            | Some (s, e) => RErr s e | None => RErr SOpen InternalFailure end)
                (handles l) (nreg l) es
   else Some (g, mkL (prog l) PAccess (cur_req l) KOpen (Some (mkOoc (o_flux o) (o_errs o) (S (o_used o)))) 0
-                    (handles l) (nreg l) (rets l), es ++ [ESleep]).
+                    (handles l) (nreg l) (regi l) (leaks l) (rets l), es ++ [ESleep]).
 
 (* the inner create / open call returns an error *)
 Definition call_fails (P : params) (t : nat) (g : gst) (l : lst) (k : opkind) (e : err) (es : list ev)
@@ -347,7 +361,7 @@ Definition call_fails (P : params) (t : nat) (g : gst) (l : lst) (k : opkind) (e
       | Some e' => op_done t g l (RErr SCreate e') (handles l) (nreg l) es
       | None =>
         Some (g, mkL (prog l) PAccess (cur_req l) KCreate (Some (mkOoc (S (o_flux o)) (o_errs o') (o_used o))) 0
-                     (handles l) (nreg l) (rets l), es)
+                     (handles l) (nreg l) (regi l) (leaks l) (rets l), es)
       end
     | KOpen, HangsInCreation | KOpen, IsMarkedForDestruction => ooc_tail P t g l o' es
     | KCreate, AlreadyExists => ooc_tail P t g l o' es
@@ -358,13 +372,13 @@ Definition call_fails (P : params) (t : nat) (g : gst) (l : lst) (k : opkind) (e
 (* the inner create / open call returns a service *)
 Definition call_succeeds (k : opkind) (t : nat) (g : gst) (l : lst) (i : nat) (c : scfg) (nr : nat) (es : list ev)
   : option (gst * lst * list ev) :=
-  op_done_k k t g l (ROk i c) (handles l ++ [(i, c)]) nr es.
+  op_done_k k t g l (ROk i c) (handles l ++ [(i, c)]) nr (match regi l with Some r => Some r | None => Some i end) es.
 
 (* open's `wait()`: elapsed > creation_timeout ? HangsInCreation : sleep, then loop *)
 Definition wait_retry (P : params) (t : nat) (g : gst) (l : lst) (es : list ev) : option (gst * lst * list ev) :=
   if Nat.leb (p_T P) (used l)
   then call_fails P t g l KOpen HangsInCreation es
-  else Some (g, mkL (prog l) PAccess (cur_req l) (cur_kind l) (in_ooc l) (S (used l)) (handles l) (nreg l) (rets l),
+  else Some (g, mkL (prog l) PAccess (cur_req l) (cur_kind l) (in_ooc l) (S (used l)) (handles l) (nreg l) (regi l) (leaks l) (rets l),
              es ++ [ESleep]).
 
 Definition run_cont (P : params) (t : nat) (g : gst) (l : lst) (c : cont) (es : list ev) : option (gst * lst * list ev) :=
@@ -399,7 +413,7 @@ Definition public_kind (l : lst) : opkind := match in_ooc l with Some _ => KOoc 
 
 Definition start_call (P : params) (t : nat) (g : gst) (l : lst) (r : req) (k : opkind) (o : option oocst)
   : option (gst * lst * list ev) :=
-  let l' := mkL (prog l) PAccess (Some r) k o 0 (handles l) (nreg l) (rets l) in
+  let l' := mkL (prog l) PAccess (Some r) k o 0 (handles l) (nreg l) (regi l) (leaks l) (rets l) in
   match k with
   | KCreate =>
     (* create_impl: configuration checks before is_service_available *)
@@ -414,13 +428,13 @@ Definition with_inst (g : gst) (i : nat) (k : inst -> option (gst * lst * list e
   match get_inst g i with Some x => k x | None => None end.
 
 Definition upd_st (x : inst) (s : sphase) : inst :=
-  mkInst (i_cfg x) (i_owner x) s (i_dy x) (i_dy_linked x) (i_res x) (i_locked x) (i_members x).
+  mkInst (i_cfg x) (i_owner x) s (i_dy x) (i_dy_linked x) (i_res x) (i_locked x) (i_gen x) (i_members x).
 Definition upd_dy (x : inst) (d : dphase) (lk : bool) : inst :=
-  mkInst (i_cfg x) (i_owner x) (i_st x) d lk (i_res x) (i_locked x) (i_members x).
+  mkInst (i_cfg x) (i_owner x) (i_st x) d lk (i_res x) (i_locked x) (i_gen x) (i_members x).
 Definition upd_res (x : inst) (b : bool) : inst :=
-  mkInst (i_cfg x) (i_owner x) (i_st x) (i_dy x) (i_dy_linked x) b (i_locked x) (i_members x).
-Definition upd_reg (x : inst) (lk : bool) (ms : list nat) : inst :=
-  mkInst (i_cfg x) (i_owner x) (i_st x) (i_dy x) (i_dy_linked x) (i_res x) lk ms.
+  mkInst (i_cfg x) (i_owner x) (i_st x) (i_dy x) (i_dy_linked x) b (i_locked x) (i_gen x) (i_members x).
+Definition upd_reg (x : inst) (lk : bool) (gn : nat) (ms : list nat) : inst :=
+  mkInst (i_cfg x) (i_owner x) (i_st x) (i_dy x) (i_dy_linked x) (i_res x) lk gn ms.
 
 Definition has_res (p : pattern) : bool := match p with Blackboard => true | _ => false end.
 
@@ -431,7 +445,7 @@ Definition step (P : params) (t : nat) (g : gst) (l : lst) : option (gst * lst *
     match prog l with
     | [] => None
     | o :: p =>
-      let l0 := mkL p Idle None KOpen None 0 (handles l) (nreg l) (rets l) in
+      let l0 := mkL p Idle None KOpen None 0 (handles l) (nreg l) (regi l) (leaks l) (rets l) in
       match o with
       | OCreate r => start_call P t g l0 r KCreate None
       | OOpen r => start_call P t g l0 r KOpen None
@@ -441,9 +455,9 @@ Definition step (P : params) (t : nat) (g : gst) (l : lst) : option (gst * lst *
         | None => op_done t g l0 RNoHandle (handles l) (nreg l) []
         | Some (h, _) =>
           let hs := firstn k (handles l) ++ skipn (S k) (handles l) in
-          let l1 := mkL p Idle None KOpen None 0 hs (nreg l) (rets l) in
+          let l1 := mkL p Idle None KOpen None 0 hs (nreg l) (regi l) (leaks l) (rets l) in
           (* registered_services().remove: only the node's last handle of the service cleans up *)
-          if Nat.eqb (nreg l) 1 then Some (g, mkL p (DRmTag h) None KOpen None 0 hs 0 (rets l), [])
+          if Nat.eqb (nreg l) 1 then Some (g, mkL p (DRmTag h) None KOpen None 0 hs 0 None (leaks l) (rets l), [])
           else op_done t g l1 RDropped hs (Nat.pred (nreg l)) []
         end
       end
@@ -501,10 +515,12 @@ Definition step (P : params) (t : nat) (g : gst) (l : lst) : option (gst * lst *
     with_inst g j (fun x =>
       if i_dy_linked x then Some (g, set_pc l (ODyFstatSize j own n), [ECall CShmOpen (BDyn j) XOk])
       else fail_with_tag P t g l own KWaitRetry [ECall CShmOpen (BDyn j) XEnoent])
-  | ODyFstatSize j own n =>                     (* size 0 => MappingSizeIsZero => () : retried WITHOUT a timeout check *)
+  | ODyFstatSize j own n =>                     (* size 0 => MappingSizeIsZero: elapsed >= timeout ? fail : retry (868edb1) *)
     with_inst g j (fun x =>
       match i_dy x with
-      | DCreated => Some (g, set_pc l (ODyOpen j own (S n)), [ECall CFstat (BDyn j) XZero; ESleep])
+      | DCreated => if Nat.leb (p_T P) n
+                    then fail_with_tag P t g l own KWaitRetry [ECall CFstat (BDyn j) XZero]
+                    else Some (g, set_pc l (ODyOpen j own (S n)), [ECall CFstat (BDyn j) XZero; ESleep])
       | _ => Some (g, set_pc l (ODyFstatPerm j own n), [ECall CFstat (BDyn j) XOk])
       end)
   | ODyFstatPerm j own n =>                     (* permission has OWNER_READ ? : elapsed >= timeout ? fail : retry *)
@@ -515,13 +531,20 @@ Definition step (P : params) (t : nat) (g : gst) (l : lst) : option (gst * lst *
              then fail_with_tag P t g l own KWaitRetry [ECall CFstat (BDyn j) XInit]
              else Some (g, set_pc l (ODyOpen j own (S n)), [ECall CFstat (BDyn j) XInit; ESleep])
       end)
-  | OReg j own =>                               (* registered_services().add_or(.. register_node_id ..) *)
+  | OReg j own =>                               (* registered_services().add_or(.. register_node_id ..): acquire, part 1 *)
     with_inst g j (fun x =>
       if Nat.ltb 0 (nreg l) then call_succeeds KOpen t g l j (i_cfg x) (S (nreg l)) []
-      else if i_locked x then fail_with_tag P t g l own (KRet KOpen IsMarkedForDestruction) []
+      else if i_locked x then fail_with_tag P t g l own (KRet KOpen IsMarkedForDestruction) []      (* generation counter holds LOCK *)
       else if N.leb (max_nodes (i_cfg x)) (lenN (i_members x))
            then fail_with_tag P t g l own (KRet KOpen ExceedsMaxNumberOfNodes) []
-      else call_succeeds KOpen t (set_inst g j (upd_reg x false (i_members x ++ [t]))) l j (i_cfg x) 1 [])
+      else Some (set_inst g j (upd_reg x false (i_gen x) (i_members x ++ [t])), set_pc l (RIncr j own), []))   (* cell CAS EMPTY -> owner *)
+  | RIncr j own =>                              (* acquire, part 2: increment_generation_counter, LOCK re-checked *)
+    with_inst g j (fun x =>
+      if i_locked x
+      then if p_recheck P
+           then fail_with_tag P t g (add_leak l j) own (KRet KOpen IsMarkedForDestruction) []   (* the cell stays populated *)
+           else call_succeeds KOpen t g l j (i_cfg x) 1 []
+      else call_succeeds KOpen t (set_inst g j (upd_reg x false (S (i_gen x)) (i_members x))) l j (i_cfg x) 1 [])
   (* ---- create ---- *)
   | CTagStat => Some (g, set_pc l CTagOpen, [ECall CStat BNodeDir XOk])
   | CTagOpen =>
@@ -537,7 +560,7 @@ Definition step (P : params) (t : nat) (g : gst) (l : lst) : option (gst * lst *
     | None =>
       let i := length (insts g) in
       let c := mk_cfg (p_defs P (r_pat rq)) rq (public_kind l) in
-      Some (set_cur (add_inst g (mkInst c t SLocked DAbsent false false false [])) (Some i),
+      Some (set_cur (add_inst g (mkInst c t SLocked DAbsent false false false 0 [])) (Some i),
             set_pc l (CStChmod1 own i), [ECall COpenExcl BStatic XOk])
     end
   | CStChmod1 own i => Some (g, set_pc l (CStWrite own i), [ECall CChmod BStatic XInit])
@@ -557,23 +580,35 @@ Definition step (P : params) (t : nat) (g : gst) (l : lst) : option (gst * lst *
   | CDyInit own i =>                            (* initializer: DynamicConfig::init + register_node_id(creator) *)
     with_inst g i (fun x =>
       if init_panics (i_cfg x) then Some (g, set_pc l (CPanicRmStatic own i), [])
-      else Some (set_inst g i (upd_reg x false [t]), set_pc l (CDyChmod own i), []))
+      else Some (set_inst g i (upd_reg x false 1 [t]), set_pc l (CDyChmod own i), []))
   | CDyChmod own i =>                           (* version stamp, then FINAL_PERMISSIONS *)
     with_inst g i (fun x =>
-      call_succeeds KCreate t (set_inst g i (upd_dy x DFinal true)) l i (i_cfg x) 1 [ECall CChmod (BDyn i) XFinal])
+      if Nat.ltb 0 (nreg l)
+      then (* registered_services().add: fatal_panic "already registered"; unwinding removes the owned static config *)
+           Some (set_inst g i (upd_dy x DFinal true), set_pc (add_leak l i) (CPanicRmStatic own i), [ECall CChmod (BDyn i) XFinal])
+      else call_succeeds KCreate t (set_inst g i (upd_dy x DFinal true)) l i (i_cfg x) 1 [ECall CChmod (BDyn i) XFinal])
   | CPanicRmStatic own i =>                     (* unwinding: the owned static config is removed, the dynamic one is not owned *)
     fail_with_tag P t (set_cur g None) l own KRetPanic [ECall CRemove BStatic XOk]
   (* ---- clean-up ---- *)
   | PRmTag c => run_cont P t (rm_tag g t) l c [ECall CRemove BTag XOk]
   (* ---- drop ---- *)
   | DRmTag h => Some (rm_tag g t, set_pc l (DDereg h), [ECall CRemove BTag XOk])
-  | DDereg h =>                                 (* deregister_node_id: remove, LockIfLastIndex *)
+  | DDereg h =>                                 (* release, part 1: cell CAS owner -> EMPTY, increment_generation_counter *)
     with_inst g h (fun x =>
       let ms := filter (fun y => negb (Nat.eqb y t)) (i_members x) in
-      match ms with
-      | [] => Some (set_inst g h (upd_reg x true []), set_pc l (DDyChmod h), [])
-      | _ => op_done t (set_inst g h (upd_reg x (i_locked x) ms)) l RDropped (handles l) 0 []
-      end)
+      Some (set_inst g h (upd_reg x (i_locked x) (if i_locked x then i_gen x else S (i_gen x)) ms), set_pc l (DSnap h), []))
+  | DSnap h =>                                  (* lock(): is_locked() ? Locked : borrowed_indices_and_generation_counter() *)
+    with_inst g h (fun x =>
+      if i_locked x then Some (set_multi g, set_pc l (DDyChmod h), [])       (* Locked although somebody else locked: NoMoreOwners again *)
+      else match i_members x with
+           | [] => Some (set_inst g h (upd_reg x false (S (i_gen x)) []), set_pc l (DCas h (S (i_gen x))), [])
+           | _ => op_done t (set_inst g h (upd_reg x false (S (i_gen x)) (i_members x))) l RDropped (handles l) 0 []   (* Unlocked: HasOwners *)
+           end)
+  | DCas h g0 =>                                (* compare_exchange(state.generation_counter, LOCK) *)
+    with_inst g h (fun x =>
+      if i_locked x then Some (set_multi g, set_pc l (DDyChmod h), [])       (* retry sees (LOCK, 0): CAS(LOCK, LOCK) succeeds *)
+      else if Nat.eqb (i_gen x) g0 then Some (set_inst g h (upd_reg x true (i_gen x) (i_members x)), set_pc l (DDyChmod h), [])
+      else Some (g, set_pc l (DSnap h), []))
   | DDyChmod h => Some (g, set_pc l (DDyUnlink h), [ECall CChmod (BDyn h) XFinal])
   | DDyUnlink h =>
     with_inst g h (fun x =>
@@ -585,8 +620,8 @@ Definition step (P : params) (t : nat) (g : gst) (l : lst) : option (gst * lst *
     op_done t (set_cur g None) l RDropped (handles l) 0 [ECall CRemove BStatic XOk]
   end.
 
-Definition g_init : gst := mkG [] None [] [].
-Definition l_init (p : list op) : lst := mkL p Idle None KOpen None 0 [] 0 [].
+Definition g_init : gst := mkG [] None [] [] false.
+Definition l_init (p : list op) : lst := mkL p Idle None KOpen None 0 [] 0 None [] [].
 Definition init (progs : nat -> list op) : cfg gst lst := (g_init, fun t => l_init (progs t)).
 
 (* ---- observations used by the ties ---- *)
